@@ -258,6 +258,23 @@ class Explorer:
             if term and term.get("cond") is not None and len(succ) == 2:
                 ct, pol = cond_shape(term["cond"])
                 name = self.edge(fn, ct)
+                if name is None and isinstance(ct, list) and ct[:1] == ["var"]:
+                    # a named local for the tested condition (`bool const alive = !died; if (alive)`): the branch is
+                    # on the initialiser - but only when nothing that could change the tested state (any call) lies
+                    # between the declaration and the branch, i.e. both are in this block with no call in between
+                    evs = b.get("ev") or []
+                    di = [i for i, e in enumerate(evs) if e["e"] == "decl" and e.get("var") == ct[1]]
+                    if len(di) == 1 and not any(e["e"] in ("call", "ctor", "assign", "incdec", "new", "delete")
+                                                for e in evs[di[0] + 1:]):
+                        init = evs[di[0]].get("init")
+                        while isinstance(init, list) and init and init[0] == "cast":
+                            init = init[2]
+                        if init is not None:
+                            it2, ipol = cond_shape(init)
+                            nm = self.edge(fn, it2)
+                            if nm is not None:
+                                name = nm
+                                pol = (pol == ipol)
                 # a branch on a local that holds a known boolean constant on this path has one feasible edge
                 if isinstance(ct, list) and ct[:1] == ["var"]:
                     known = dict(L).get(ct[1])
